@@ -262,7 +262,11 @@ func cmdCheck(args []string) int {
 			}
 		case c.Kind == "func" && c.Trusted:
 			trustedUsed[shortKey(c.Key)] = true
-			continue
+			if !c.CheckCalls {
+				continue
+			}
+			// trusted frame (modifies/ensures assumed), but the call-site clauses are verified against the body
+			g, err = verifyFunc(P, c)
 		case c.Kind == "lemma":
 			g, err = verifyLemma(P, c)
 		default:
